@@ -1,0 +1,23 @@
+//go:build verif
+
+// Contracts for the govc verifier (/verif). This file contains comments only; it is compiled
+// only under the build tag "verif" and contributes no declarations.
+package service
+
+// ---------------------------------------------------------------------------------------------
+// Operator asset transfers (C06, C01). A transfer only moves value, never a negative amount and never
+// more than the source holds; a rejected transfer changes nothing. The balance reported back (it goes into
+// the receipt text, C01) is the source's balance AFTER the transfer - also when source and target coincide,
+// whichever entry of the request map is processed last.
+
+//@ func transferBalance
+//@   property C06 C01
+//@   requires accountDB != nil && logger != nil
+//@   requires [wf] forall a common.Address :: balOf(a) >= 0
+//@   ensures [conserve] result0 && source != target ==> balOf(source) + balOf(target) == old(balOf(source) + balOf(target)) && balOf(target) >= old(balOf(target)) && balOf(source) >= 0
+//@   ensures [self]     result0 && source == target ==> balOf(source) == old(balOf(source))
+//@   ensures [others]   forall a common.Address :: a != source && a != target ==> balOf(a) == old(balOf(a))
+//@   ensures [supply]   ghost(supply) == old(ghost(supply))
+//@   ensures [left]     result0 ==> result1 != nil && big(result1) == balOf(source)
+//@   ensures [fail]     !result0 ==> ghost(bal) == old(ghost(bal))
+//@   modifies ghost(bal), ghost(supply)
